@@ -358,6 +358,29 @@ def discharge_assert(ctx, b, bb, t):
         for (dbb, j, rv) in b.assignments().get(pl["l"], []):
             if j != "term" and rv["k"] == "binop" and "const" in rv["a"] and "const" in rv["b"]:
                 return True, "both operands are compile-time constants"
+    if kind.startswith(("DivisionByZero", "RemainderByZero")) and pl is not None:
+        # `if n != 0 { x / n }`: a dominating test of the same value against zero
+        div = None
+        for (dbb, j, rv) in b.assignments().get(pl["l"], []):
+            if j != "term" and rv["k"] == "binop" and rv["op"] == "Eq":
+                div = rv["a"] if "const" in rv["b"] else (rv["b"] if "const" in rv["a"] else None)
+        if div is not None:
+            sl = Slicer(ctx.world, b)
+            dl = sl.leaves_of_operand(div)
+            if dl and all(l[0] == "const" and l[1] not in (0, None) for l in dl):
+                return True, "the divisor is a non-zero constant"
+            for sw in b.normal_blocks():
+                c = cfgutil.cmp_true_edge(b, sw)
+                if c is None:
+                    continue
+                op, x, y, t_true, t_false = c
+                lx, ly = sl.leaves_of_operand(x), sl.leaves_of_operand(y)
+                for (p_, q_, op_) in ((lx, ly, op), (ly, lx, {"Lt": "Gt", "Gt": "Lt", "Le": "Ge", "Ge": "Le"}.get(op, op))):
+                    if p_ != dl or not (q_ and all(l[0] == "const" and l[1] == 0 for l in q_)):
+                        continue
+                    edge = {"Ne": t_true, "Gt": t_true, "Eq": t_false, "Le": t_false}.get(op_)
+                    if edge is not None and cfgutil.edge_dominates(b, (sw, edge), bb):
+                        return True, "behind a test of the divisor against zero"
     if kind.startswith("Overflow"):
         # counters that cannot overflow in practice are still listed: discharge only `x + const` on a loop
         # counter bounded by a collection length (enumerate/len) - conservative: not discharged
@@ -921,6 +944,15 @@ def tag_agreement(ctx, r, fam):
                             if s["k"] == "assign" and s["rv"]["k"] == "agg" and s["rv"].get("def") == d and \
                                     cfgutil.edge_dominates(dcd, edge, bb):
                                 dec_map[v] = s["rv"]["variant"]
+                            elif s["k"] == "assign" and s["rv"]["k"] == "agg" and s["rv"].get("ak") == "closure" and \
+                                    cfgutil.edge_dominates(dcd, edge, bb):
+                                # `.map(|keys| Op::Remove { keys })`: the variant is built by a closure written in this arm
+                                cb = prog.bodies.get(s["rv"].get("def"))
+                                if cb is not None:
+                                    vs = set(s2["rv"]["variant"] for bb2 in cb.normal_blocks() for s2 in cb.stmts(bb2)
+                                             if s2["k"] == "assign" and s2["rv"]["k"] == "agg" and s2["rv"].get("def") == d)
+                                    if len(vs) == 1:
+                                        dec_map.setdefault(v, list(vs)[0])
                 # a tag that passes none of the tests ends in an error: follow only the 'different' edges
                 rf = ctx.must(None).rf(dcd)
                 err_default = False
